@@ -51,12 +51,14 @@ impl<'a> MemWordReader<'a, true> {
 //@FN file=src/impls/mem_word_reader.rs item=/impl<W: Word, B: AsRef<\[W\]>> WordSeek for MemWordReader<W, B, true>/ name=word_pos
 //@SIG fn word_pos_inf(&mut self) -> (r: Result<u64, Infallible>)
 //@SPEC     ensures final(self).data@ == old(self).data@, final(self).word_index == old(self).word_index, r is Ok && r->Ok_0 == old(self).word_index,
+//@INST <<.as_ref()>> => <<>>
 //@END
 
 //@FN file=src/impls/mem_word_reader.rs item=/impl<W: Word, B: AsRef<\[W\]>> WordSeek for MemWordReader<W, B, true>/ name=set_word_pos
 //@SIG fn set_word_pos_inf(&mut self, word_index: u64) -> (r: Result<(), Infallible>)
 //@SPEC     ensures final(self).data@ == old(self).data@, r is Ok, final(self).word_index == word_index,
-//@REPLACE_RE <<word_index\.min\(usize::MAX as u64\)>> => <<(if word_index <= usize::MAX as u64 { word_index } else { usize::MAX as u64 })>>
+//@REPLACE_RE [[word_index\.min\(((?:[^()]|\([^()]*\))*)\)]] => [[(if word_index <= \1 { word_index } else { \1 })]]
+//@INST <<.as_ref()>> => <<>>
 //@END
 }
 
@@ -77,6 +79,7 @@ impl<'a> MemWordReader<'a, false> {
 //@FN file=src/impls/mem_word_reader.rs item=/impl<W: Word, B: AsRef<\[W\]>> WordSeek for MemWordReader<W, B, false>/ name=word_pos
 //@SIG fn word_pos_strict(&mut self) -> (r: Result<u64, IoError>)
 //@SPEC     ensures final(self).data@ == old(self).data@, final(self).word_index == old(self).word_index, r is Ok && r->Ok_0 == old(self).word_index,
+//@INST <<.as_ref()>> => <<>>
 //@END
 
 //@FN file=src/impls/mem_word_reader.rs item=/impl<W: Word, B: AsRef<\[W\]>> WordSeek for MemWordReader<W, B, false>/ name=set_word_pos
@@ -111,6 +114,7 @@ impl MemWordWriterVec {
 //@PROLOGUE let ghost s0 = self.data@; let ghost c0 = self.word_index as int;
 //@PROOF after=<<self.data.resize(self.word_index + 1, (0 as {{W}}));>> proof { assert(self.data@.len() == c0 + 1); assert forall|i: int| 0 <= i < self.data@.len() implies #[trigger] self.data@[i] == at_ext(s0, i) by { } }
 //@PROOF after=<<self.data[self.word_index] = word;>> proof { assert forall|i: int| 0 <= i < self.data@.len() implies #[trigger] self.data@[i] == (if i == c0 { word } else { at_ext(s0, i) }) by { } }
+//@INST <<.as_ref()>> => <<>>
 //@END
 
 //@FN file=src/impls/mem_word_writer.rs item=/impl<W: Word, B: AsMut<alloc::vec::Vec<W>>> WordRead for MemWordWriterVec<W, B>/ name=read_word
@@ -123,11 +127,14 @@ impl MemWordWriterVec {
 //@SPEC         old(self).word_index < old(self).data@.len() ==> r is Ok,
 //@INST <<.as_mut()>> => <<>>
 //@CALLSUB <<std::io::Error::new>> => <<io_error()>>
+//@INST <<.as_ref()>> => <<>>
 //@END
 
 //@FN file=src/impls/mem_word_writer.rs item=/WordSeek\s+for MemWordWriterVec<W, B>/ name=word_pos
 //@SIG fn word_pos_vec(&mut self) -> (r: Result<u64, IoError>)
 //@SPEC     ensures final(self).data@ == old(self).data@, final(self).word_index == old(self).word_index, r is Ok && r->Ok_0 == old(self).word_index,
+//@INST <<.as_ref()>> => <<>>
+//@INST <<.as_mut()>> => <<>>
 //@END
 
 //@FN file=src/impls/mem_word_writer.rs item=/WordSeek\s+for MemWordWriterVec<W, B>/ name=set_word_pos
@@ -138,6 +145,7 @@ impl MemWordWriterVec {
 //@SPEC         word_index > old(self).data@.len() ==> r is Err && final(self).word_index == old(self).word_index,
 //@INST <<.as_ref()>> => <<>>
 //@CALLSUB <<std::io::Error::new>> => <<io_error()>>
+//@INST <<.as_mut()>> => <<>>
 //@END
 }
 
@@ -158,11 +166,14 @@ impl<'a> MemWordWriterSlice<'a> {
 //@SPEC         old(self).word_index < old(self).data@.len() ==> r is Ok,
 //@INST <<.as_mut()>> => <<>>
 //@CALLSUB <<std::io::Error::new>> => <<io_error()>>
+//@INST <<.as_ref()>> => <<>>
 //@END
 
 //@FN file=src/impls/mem_word_writer.rs item=/WordSeek for MemWordWriterSlice<W, B>/ name=word_pos
 //@SIG fn word_pos_slice(&mut self) -> (r: Result<u64, IoError>)
 //@SPEC     ensures final(self).data@ == old(self).data@, final(self).word_index == old(self).word_index, r is Ok && r->Ok_0 == old(self).word_index,
+//@INST <<.as_ref()>> => <<>>
+//@INST <<.as_mut()>> => <<>>
 //@END
 
 //@FN file=src/impls/mem_word_writer.rs item=/WordSeek for MemWordWriterSlice<W, B>/ name=set_word_pos
@@ -173,6 +184,7 @@ impl<'a> MemWordWriterSlice<'a> {
 //@SPEC         word_index > old(self).data@.len() ==> r is Err && final(self).word_index == old(self).word_index,
 //@INST <<.as_ref()>> => <<>>
 //@CALLSUB <<std::io::Error::new>> => <<io_error()>>
+//@INST <<.as_mut()>> => <<>>
 //@END
 
 //@FN file=src/impls/mem_word_writer.rs item=/impl<W: Word, B: AsMut<\[W\]>> WordWrite for MemWordWriterSlice<W, B>/ name=write_word
@@ -184,6 +196,7 @@ impl<'a> MemWordWriterSlice<'a> {
 //@SPEC         r is Err ==> old(self).word_index >= old(self).data@.len() && final(self).data@ == old(self).data@ && final(self).word_index == old(self).word_index,
 //@INST <<.as_mut()>> => <<>>
 //@CALLSUB <<std::io::Error::new>> => <<io_error()>>
+//@INST <<.as_ref()>> => <<>>
 //@END
 }
 
